@@ -488,7 +488,8 @@ def check_C01(sc, v, tier, seed, replay):
     for i in range(n):
         nue = 1 + (i % 3 if tier != "quick" else (1 if i == 2 else 0))
         counts = {"reg": nue, "pdu": 0, "svc": 0, "rel": 0, "dereg": 0}
-        opts = {"mnc_len": 2 + i % 2, "use_opc": i % 2 == 0, "gnb_bits": [22, 24, 27, 32, 25, 31][i % 6], "name_len": [7, 1, 150, 2, 75][i % 5],
+        opts = {"det": i, "mnc_len": 2 + i % 2, "use_opc": i in (0, 1, 4, 5) or i % 4 == 3, "gnb_bits": 22 + (seed + 4 * i) % 11,
+                "name_len": [7, 1, 150, 2, 75][i % 5], "mcc": "001" if i % 3 == 1 else None,
                 "imsi_len": [15, 15, 13, 14, 12, 11][i % 6],      # MSIN lengths 10, 9, 8, 8, 7, 5: odd and even digit counts
                 "big_amf_id": i % 3 == 0,                         # an AMF-UE-NGAP-ID that needs five octets
                 "free_msin": i % 2 == 0,                          # subscriber blocks that cross a multiple of 10^4
@@ -512,14 +513,14 @@ def check_C02(sc, v, tier, seed, replay):
     rnd = random.Random(seed * 1013 + 2)
     # (reg, pdu, svc, rel, dereg): the third shape asks for more services / releases than sessions and more sessions than ... each clamp of
     # the main program is exercised by a count larger than its prerequisite, separately for pdu < rel and reg < pdu
-    shapes = [(1, 1, 1, 1, 1), (2, 1, 3, 2, 3), (2, 3, 1, 3, 1)]
+    shapes = [(1, 1, 1, 1, 1), (2, 1, 3, 2, 3), (2, 3, 1, 3, 1), (2, 2, 0, 1, 2)]     # the last: a session still active at deregistration, no service
     if tier != "quick":
         shapes += [(3, 3, 3, 3, 3), (3, 2, 1, 0, 3), (2, 0, 3, 3, 1), (1, 3, 0, 2, 0), (3, 1, 2, 1, 2), (2, 2, 0, 2, 2), (2, 2, 2, 0, 0),
                    (1, 1, 0, 0, 1), (3, 3, 0, 3, 0), (2, 1, 3, 3, 3), (1, 0, 0, 0, 1), (3, 2, 2, 2, 1), (2, 2, 2, 1, 1)]
     jobs = []
     for i, s in enumerate(shapes):
         counts = dict(zip(("reg", "pdu", "svc", "rel", "dereg"), s))
-        scn, text = online.make_scenario(rnd, counts, opts={"mnc_len": 2 + i % 2})
+        scn, text = online.make_scenario(rnd, counts, opts={"det": i, "mnc_len": 2 + i % 2, "imsi_len": [15, 14, 13, 15][i % 4]})
         jobs.append(("life%02d" % i, scn, text))
     runs = online.run_many(sc, emu, jobs, parallel=8, timeout=1500)
     _online_collect(v, runs, "C02", sc)
@@ -556,13 +557,20 @@ def check_C19(sc, v, tier, seed, replay):
             pass
         elif si > 0:
             pts = rnd.sample(pts, min(len(pts), 24))
-        for kind, at in pts:
-            g = rnd.choice([[255] * 12, [rnd.randrange(256) for _ in range(rnd.choice([1, 5, 40]))] + [255, 255],
-                            [0, 21, 0, 50, 0, 0, 4, 0, 27], [0x20, 0x15, 0x00, 0x80]])
-            scn, text = online.make_scenario(random.Random(seed * 7 + si), counts,
-                                             fault={"kind": kind, "at": at, "bytes": g if kind == "garbage" else []})
-            jobs.append(("f%d-%s%02d" % (si, kind, at), scn, text))
-    runs = online.run_many(sc, emu, jobs, parallel=12, timeout=900)
+        # undecodable answers: all-ones, a truncated but well-started PDU, a single octet, random octets, more octets than the emulator's
+        # read buffer holds; in the quick tier every consumed answer gets the first two, the other classes rotate over the fault points
+        classes = [[255] * 12, [0, 21, 0, 50, 0, 0, 4, 0, 27], [0x20], [rnd.randrange(256) for _ in range(40)] + [255, 255],
+                   [0x20, 0x15, 0x00, 0x80], [255] * 2100]
+        for pi, (kind, at) in enumerate(pts):
+            gs = [[]]
+            if kind == "garbage":
+                gs = [classes[0], classes[1 + pi % 2 * 3]] if (tier == "quick" or si == 0) else [classes[pi % len(classes)]]
+                gs.append(classes[2 + pi % 4]) if tier == "quick" and pi % 3 == 0 else None
+            for gi, g in enumerate(gs):
+                scn, text = online.make_scenario(random.Random(seed * 7 + si), counts, opts={"det": si},
+                                                 fault={"kind": kind, "at": at, "bytes": g})
+                jobs.append(("f%d-%s%02d%s" % (si, kind, at, "abc"[gi] if kind == "garbage" else ""), scn, text))
+    runs = online.run_many(sc, emu, jobs, parallel=16, timeout=900)
     for r in runs:
         for rj in r["tlc"].rejects:
             if rj["why"].startswith("HARNESS"):
